@@ -776,7 +776,14 @@ static ZSTD_frameSizeInfo ZSTD_findFrameSizeInfo(const void* src, size_t srcSize
         remainingSize -= zfh.headerSize;
 
         /* Iterate over each block */
-        while (1) {
+        while (1)
+        ZSTD_VERIF_LOOP(
+            __CPROVER_assigns(ip, remainingSize, nbBlocks)
+            __CPROVER_loop_invariant(remainingSize <= srcSize && __CPROVER_same_object(ip, ipstart)
+                                  && (size_t)(__CPROVER_POINTER_OFFSET(ip) - __CPROVER_POINTER_OFFSET(ipstart)) == srcSize - remainingSize
+                                  && nbBlocks <= (srcSize - remainingSize) / ZSTD_blockHeaderSize)
+            __CPROVER_decreases(remainingSize))
+        {
             blockProperties_t blockProperties;
             size_t const cBlockSize = ZSTD_getcBlockSize(ip, remainingSize, &blockProperties);
             if (ZSTD_isError(cBlockSize))
